@@ -717,8 +717,14 @@ def mail_addr_list_matches(st, v, mail, field, names="mapping"):
     n_spec = M.ML_N(mail, f)
     tag = M.seq_tag(st, v)
     if not (isinstance(tag, tuple) and tag and tag[0] in ("map", "filtermap")):
-        return None
-    if tag[0] == "map":
+        # built by appends in a loop: read positionally.  Every entry mailparser reports carries an address (assumed shape), so
+        # the specified filter-map keeps every entry and position k of the result is entry k.
+        r = seq_of(st, v, ("obj", "EmailAddress"))
+        if r is None:
+            return None
+        n, el = r
+        keep = lambda k: z3.BoolVal(True)
+    elif tag[0] == "map":
         _t, n, el = tag
         keep = lambda k: z3.BoolVal(True)
     else:
@@ -814,10 +820,25 @@ def eml_contract():
         return z3.And(n == M.MA_N(mail), forall(n, lambda k: att_ok(c.st, el(k), M.MA_AT(mail, k)), "k!ea"))
 
     def inv(lc):
+        """One invariant for every loop of the body, by what the loop walks: over mail.attachments the list built so far is the
+        specified attachments prefix; over an address list of the mail it is the specified recipients prefix; other loops: True."""
         mail = M.MAILOF(M.bytes_term(lc.entry.lookup("payload")))
-        n, el = built_list(lc, 0, ("obj", "EmailAttachment"))
+        t = lc.seq.length if isinstance(lc.seq, VSeq) else None
+        what = t.decl().name() if t is not None and z3.is_app(t) else ""
         i = lc.i
-        return Conj([("count", n == i), ("items", forall(i, lambda k: att_ok(lc.st, el(k), M.MA_AT(mail, k)), "k!ei"))])
+        if what == "mail_attachments_n":
+            n, el = built_list(lc, None, ("obj", "EmailAttachment"))
+            return Conj([("count", n == i), ("items", forall(i, lambda k: att_ok(lc.st, el(k), M.MA_AT(mail, k)), "k!ei"))])
+        if what == "mail_addresses_n":
+            f = t.arg(1)
+            n, el = built_list(lc, None, ("obj", "EmailAddress"))
+
+            def body(k):
+                nm, ad = addr_fields(lc.st, el(k))
+                return z3.And(M.UNFOLD(nm) == M.UNFOLD(M.ML_NAME(mail, f, k)), ad == M.ML_ADDR(mail, f, k))
+            return Conj([("count", n == i), ("items", forall(i, body, "k!ai")),
+                         ("unfolded", forall(i, lambda k: addr_fields(lc.st, el(k))[0] == M.UNFOLD(M.ML_NAME(mail, f, k)), "k!au"))])
+        return Conj([])
 
     def lib_only(c):
         return z3.BoolVal(c.exc is not None and c.exc.attrs.get("site") in LIB_SITES)
@@ -856,7 +877,7 @@ def eml_contract():
                  ("body_html-is-the-joined-html-parts", f_str(("body_html",), "body_html")),
                  ("every-attachment-with-name-type-exact-bytes-and-support-flag", e_atts)],
         raises=[Raises("Exception", sub=True, when=lib_only, label="only what mailparser / base64 raise; the glue itself is total")],
-        loops={0: LoopSpec(inv=inv, label="attachments")},
+        loops={"*": LoopSpec(inv=inv)},
         result_maker=result_maker,
         note="field mapping from the mailparser view; attachment data == decoded payload",
     )
